@@ -78,11 +78,20 @@ def glob_v(sub):
     d = os.path.join(COQ, sub)
     return [os.path.join(d, f) for f in sorted(os.listdir(d)) if f.endswith(".v")] if os.path.isdir(d) else []
 
+def gen_facts():
+    """regenerate coq/Gen/*.v from /repo's current source (written only when changed)"""
+    d = os.path.join(VERIF, "tools", "genfacts")
+    rc, out = sh("go build -o genfacts . && ./genfacts %s %s" % (REPO, os.path.join(COQ, "Gen")), cwd=d, env=GOENV)
+    return rc == 0, out
+
 def build_coq():
     """Full .vo build of the development (no -vos); returns (ok, log)."""
+    okg, outg = gen_facts()
+    if not okg:
+        return False, "genfacts failed:\n" + outg
     if not os.path.exists(os.path.join(COQ, "Makefile")):
         sh("coq_makefile -f _CoqProject -o Makefile", cwd=COQ, check=True)
-    rc, out = sh("timeout 3000 make -j%d" % NCPU, cwd=COQ)
+    rc, out = sh("timeout 3000 make -k -j%d" % NCPU, cwd=COQ)
     return rc == 0, out
 
 def build_model():
